@@ -52,6 +52,22 @@ THEOREMS = [
     "Ural.Props.C14.api_delimiters",
     "Ural.Props.C14.api_functions",
     "Ural.Props.C14.qsl_contract",
+    # safely_quote(string, safe=...) (FX-C01-6e09416: safely_quote_qsl passes safe="/+")
+    "Ural.Props.C14.quote_default_safe",
+    "Ural.Props.C14.quote_safe_sets",
+    "Ural.Props.C14.quoteBy_tokens",
+    "Ural.Props.C14.quoteBy_contract",
+    "Ural.Props.C14.unquote_quoteBy_unquote",
+    "Ural.Props.C14.quoteBy_unquote_idempotent",
+    "Ural.Props.C14.upper_commutes_quoteBy",
+    "Ural.Props.C14.query_plus_kept",
+    # positional forms of the delimiter clause
+    "Ural.Props.C14.unquote_delimiter_positional",
+    "Ural.Props.C14.unquote_split_delimiter",
+    "Ural.Props.C14.api_delimiters_positional",
+    # the model in the order of the Python code (decode, then NON_PRINTABLE_RE.sub, then the space) is the model
+    "Ural.Quote.safelyUnquotePost_eq",
+    "Ural.Props.C14.api_code_order",
 ]
 TABLE_OBLIGATIONS = [
     "Ural.Props.C14.tables_percent_unsafe",
@@ -61,6 +77,7 @@ TABLE_OBLIGATIONS = [
     "Ural.Props.C14.tables_flags",
     "Ural.Props.C14.tables_patterns",
     "Ural.Props.C14.tables_ascii",
+    "Ural.Props.C14.tables_qsl_safe",
 ]
 RULE = (
     "A case is a string. Streams, in this order: (1) the regression corpus (minimal input of every "
@@ -74,7 +91,10 @@ RULE = (
     "letter, a non-hex letter, a delimiter, a multi-byte character (thorough: + a raw space), so "
     "that every two- and three-character window of classes occurs at every offset; (4) seeded "
     "random sequences of 3..12 atoms (the compositions below on every third one). Each string is run through safely_quote, the four "
-    "safely_unquote_* functions and upper_quoted, and through the 28 compositions the theorems "
+    "safely_unquote_* functions, upper_quoted and safely_quote(s, safe='/+') (what safely_quote_qsl calls), on the corpus, the "
+    "atom sequences, the short window strings and a ninth of the random ones also through safely_quote with three more safe "
+    "arguments ('', '&=+;', one holding a non-ASCII character and '%') and through the model of each unquoter written in the ORDER of the "
+    "code (decode, NON_PRINTABLE_RE.sub, space: safelyUnquotePost), and through the 28 compositions the theorems "
     "speak about (per unquoter u: q(u s), u(q(u s)), q(u(q(u s))), u(u s), u(upper s), upper(u s); "
     "upper(upper s), q(upper s), upper(q s), q(q s)) and through safely_unquote_qsl / safely_quote_qsl / "
     "their composition on [(s, None), (s, s), ('', s)] -- model vs implementation -- and through the "
@@ -91,19 +111,26 @@ TRUSTED = [
     "hand-written Lean model UralModel/Model/Quote.lean of ural/quote.py (tokens / itemOf / assemble / flush), tied to the code by differential execution (this run); the UNSAFE_FOR_* byte sets, the flags of the four functools.partial objects and the regex pattern strings are regenerated from the imported module on every run (Gen/QuoteTables.lean) and enter the theorems through decide-checked table obligations",
     "UTF-8: Lean core's ByteArray.utf8DecodeChar? / String.utf8EncodeChar (with core's public round-trip theorems) stand for CPython's codec; compared on byte strings in this run",
     "the three regexes of safely_quote / upper_quoted (QUOTED_SPLIT_RE, QUOTED_RE, LOWERCASE_QUOTED_RE) are modelled by the hand-written scanner `tokens` (a '%' followed by two hex digits is an escape, escapes cannot overlap); their pattern strings and flags are pinned by the obligation tables_patterns, the behaviour is compared in this run",
-    "urllib.parse.quote (default safe='/') is modelled as 'unreserved and / stay, every other UTF-8 byte becomes %XX upper-case' (CPython, modelled not verified; compared in this run)",
+    "urllib.parse.quote(piece, safe=safe) is modelled as 'unreserved characters and the ASCII characters of safe stay, every other UTF-8 byte becomes %XX upper-case' (quoteSafeIn; CPython, modelled not verified; compared in this run for safe = '/' (default), '/+' (what safely_quote_qsl passes since FX-C01-6e09416), '', '&=+;' and one holding a non-ASCII character and '%'); what safely_quote_qsl leaves alone in a key and in a value is regenerated by probing the function on every ASCII code point (Gen/QuoteTables.lean qslQuoteSafeKey / qslQuoteSafeValue, obligation tables_qsl_safe)",
 ]
 ASSUMPTIONS = [
     "strings contain no lone surrogates (cannot be produced by UTF-8 decoding)",
     "plain ural.quote.unquote (lossless=False / other flag settings) is outside the model: C14 is about the safely_* functions",
+    "reading of 'every character that delimits its component': the characters at which the URL parser (urlsplit) and ural's own query splitter (safe_qsl_iter) cut - '@ : / ? #' (+ '[ ]') userinfo, '/ ? #' path, '& = #' query item - and, for a query item, '+' (a space there, while %2B is a plus sign: FX-C01-6e09416; pinned by tables_query_delims / tables_qsl_safe / query_plus_kept). PATH PARAMETERS are not in the reading: ural has no notion of them (it parses with urlsplit, never urlparse), so safely_unquote_path('a%3Bb') == 'a;b' and '%2C' / '%3D' / '%26' are unescaped in a path like every other sub-delimiter - for a server that uses matrix parameters (';jsessionid=...') '/a%3Bb' and '/a;b' are two paths; this is recorded as a limit of what the library promises, not as a finding (RFC 3986 3.3 leaves the meaning of ';' '=' ',' in a segment to the scheme / the server, and the test-suite and README never mention them). The theorems cover every byte that IS in a table (unquote_delimiters_table), whatever it is",
 ]
 UNPROVED = (
     "none for the model: every clause of the statement is a theorem about all strings (design.d/C14.md "
     "maps each clause to its theorem). What stays outside the proof is the correspondence between the model "
     "and the Python code (hand-written model, CPython's UTF-8 codec, urllib.parse.quote and the re engine): "
-    "compared by differential execution on every case, not verified; and the property's informal words "
-    "'decodes to', 'delimits', 'inside a valid escape' are read as pctStr, the regenerated UNSAFE_FOR_* "
-    "tables and EscDigitAt (Props/C14.lean)"
+    "compared by differential execution on every case, not verified (the ORDER of the passes of `unquote` - decode, then "
+    "NON_PRINTABLE_RE.sub, then the space - is not part of that gap any more: safelyUnquotePost is written in the order of the code "
+    "and proved equal to the model of the theorems, safelyUnquotePost_eq / api_code_order, and both are compared with the code); and the "
+    "property's informal words 'decodes to', 'delimits', 'inside a valid escape' are read as pctStr (for a query item also the form "
+    "reading, '+' = space: query_plus_kept here, Canonicalize.formStr in C01), the regenerated UNSAFE_FOR_* "
+    "tables with the named delimiter lists of the tables_*_delims obligations (path parameters excluded: ASSUMPTIONS) and EscDigitAt "
+    "(Props/C14.lean). The clauses are supported by the string-level theorems (quote_keeps_escapes_str, quoteBy_contract, "
+    "unquote_split_delimiter / api_delimiters_positional, api_unquote_contract); quote_keeps_escapes (token level) and api_functions "
+    "(rfl) are restatements kept as lemmas"
 )
 
 ATOMS = [
@@ -126,6 +153,10 @@ CORPUS = [
     "/%2541", "/a%E9b", "%7F%C2%85", "a b", "/%2F", "u%2Fx", "%%34%31", "%zz", "%", "%4",
     "x%E3%80%80", "%C2%A0x%E2%80%83", "t%C3%A9%40%3A%20", "é%3F%26%3D%20 ", "%C3é", "%E2%82%AC", "%e2%82%ac%41", "%F4%90%80%80",
     "a\xa0b", "x\u3000", "\u2028%41", "%E2\xa0%A0", "%C2\xa0", "\xa0%A0", "\x85%85",
+    # FX-C01-6e09416: '+' / '%2B' in a query item (a space / a plus sign): neither is rewritten into the other
+    "a+b%2B", "%2B", "+", "%2b+%20 ", "c%2B%2B+faq",
+    # the order of the passes (decode, then NON_PRINTABLE_RE.sub, then the space): raw non-printables between bytes
+    "%E2\xa0%A0 %C2%A0%41", "%F0\u3000%9F%8D%8A", "%C2\x85%85 ",
     # upper_quoted: every shape of LOWERCASE_QUOTED_RE's three alternatives, and its look-alikes
     "%2f", "%f2", "%ff", "%fF", "%Ff", "%FF", "%22", "%c3%a9", "%aG", "%ga", "%%2f", "%2%2f", "%2f%", "%2ff",
     "f%2f/é%c3", "%é2f", "%2\u00e9f", "a?é%41\n[%2f",
@@ -143,12 +174,12 @@ BYTE_ATOMS = [
 
 def cases(rng, tier):
     for s in CORPUS:
-        yield {"s": s}
-    yield {"s": ""}
+        yield {"s": s, "x": 1}
+    yield {"s": "", "x": 1}
     for a in ATOMS:
-        yield {"s": a}
+        yield {"s": a, "x": 1}
     for a, b in itertools.product(ATOMS, repeat=2):
-        yield {"s": a + b}
+        yield {"s": a + b, "x": 1}
     if tier == "thorough":
         for t in itertools.product(ATOMS, repeat=3):
             yield {"s": "".join(t)}
@@ -156,13 +187,18 @@ def cases(rng, tier):
     alpha, top = (WIN_QUICK, 5) if tier == "quick" else (WIN_THOROUGH, 6)
     for k in range(1, top + 1):
         for t in itertools.product(alpha, repeat=k):
-            yield {"s": "".join(t)}
+            c = {"s": "".join(t)}
+            if k <= 3:
+                c["x"] = 1
+            yield c
     n = 24000 if tier == "quick" else 120000
     for i in range(n):
         k = rng.randint(3, 12)
         c = {"s": "".join(rng.choice(ATOMS) for _ in range(k))}
         if i % 3:
             c["lite"] = 1  # the six functions only; the compositions run on every third random case
+        elif i % 9 == 0:
+            c["x"] = 1
         yield c
     # UTF-8 segmentation stream
     for a in BYTE_ATOMS:
@@ -178,17 +214,33 @@ def cases(rng, tier):
         yield {"bytes": bs}
 
 
+UNQUOTERS = FNS[1:5]
+
+# `safely_quote(s, safe=…)`: the value `safely_quote_qsl` passes (FX-C01-6e09416), the empty one, one with
+# delimiters, a non-ASCII character (ignored by urllib's quote) and the escape sign itself
+SAFES = ["/+", "", "&=+;", "é%/"]
+
+
 def ops(case):
     if "bytes" in case:
         return [{"f": "utf8seg", "bytes": case["bytes"]}]
     s = case["s"]
     base = [{"f": "quote", "fn": fn, "s": s} for fn in FNS] + [{"f": "pct", "s": s}]
+    base.append({"f": "quote", "fn": "safely_quote", "s": s, "safe": SAFES[0]})
     if case.get("lite"):
         return base
-    return base + [{"f": "chains", "s": s}, {"f": "qsl", "s": s}]
+    extra = []
+    if _extra(case):
+        extra = [{"f": "quote", "fn": "safely_quote", "s": s, "safe": x} for x in SAFES[1:]]
+        # the unquoters computed in the order of the code (Model/Quote.lean safelyUnquotePost)
+        extra += [{"f": "quote", "fn": fn, "s": s, "post": True} for fn in UNQUOTERS]
+    return base + extra + [{"f": "chains", "s": s}, {"f": "qsl", "s": s}]
 
 
-UNQUOTERS = FNS[1:5]
+def _extra(case):
+    """the further `safe` arguments and the code-order model: on the corpus, the atom sequences, the
+    window strings of <= 3 characters and a ninth of the random strings (flag set by `cases`)"""
+    return bool(case.get("x"))
 
 
 def _qsl(s):
@@ -242,9 +294,14 @@ def impl(case):
         return [out]
     s = case["s"]
     base = [lib.guarded(_fn(fn), s) for fn in FNS] + [list(unquote_to_bytes(s))]
+    base.append(lib.guarded(_fn("safely_quote"), s, safe=SAFES[0]))
     if case.get("lite"):
         return base
-    return base + [lib.guarded(_chains, s), lib.guarded(_qsl, s)]
+    extra = []
+    if _extra(case):
+        extra = [lib.guarded(_fn("safely_quote"), s, safe=x) for x in SAFES[1:]]
+        extra += [lib.guarded(_fn(fn), s) for fn in UNQUOTERS]
+    return base + extra + [lib.guarded(_chains, s), lib.guarded(_qsl, s)]
 
 
 def canon(op, out):
@@ -257,10 +314,15 @@ def canon(op, out):
 # oracle: the Reading of C14 (DESIGN §6), on the implementation only
 # ---------------------------------------------------------------------------------------
 ESC = re.compile(r"%[0-9A-Fa-f]{2}")
+# the characters that delimit / have a meaning of their own in each component (the reading of "delimits
+# its component", design.d/C14.md): what the URL parser and ural's own query splitter cut at, and for a
+# query item the '+' (a space in a query, while %2B is a plus sign: FX-C01-6e09416).  Path parameters (';',
+# '=' and ',' inside a segment, RFC 3986 3.3) are NOT in the list: ural has no notion of them (it parses
+# with urlsplit, not urlparse) and unescapes %3B in a path like any other sub-delimiter (ASSUMPTIONS)
 DELIMS = {
     "safely_unquote_auth_item": "@:/?#",
     "safely_unquote_path": "/?#",
-    "safely_unquote_query_item": "&=#",
+    "safely_unquote_query_item": "&=#+",
     "safely_unquote_fragment": "",
 }
 UNRESERVED = set("ABCDEFGHIJKLMNOPQRSTUVWXYZabcdefghijklmnopqrstuvwxyz0123456789-._~")
@@ -300,6 +362,22 @@ def oracle(case):
         qq = _fn("safely_quote")(q)
         if qq != q:
             return "safely_quote not idempotent on %r: %r then %r" % (s, q, qq)
+        # the quoting step of query items (safely_quote_qsl = safely_quote(item, safe="/+")): the same contract,
+        # and a raw '+' stays raw (it is a space there, %2B a plus sign)
+        (k2, v2), = _fn("safely_quote_qsl")([(s, s)])
+        for what, q2 in (("key", k2), ("value", v2)):
+            if not q2.isascii() or pct(q2) != pct(s):
+                return "safely_quote_qsl: %s %r -> %r is not ASCII or decodes differently" % (what, s, q2)
+            it = iter(ESC.findall(q2))
+            if not all(any(e == f for f in it) for e in es):
+                return "safely_quote_qsl: %s %r -> %r does not keep every escape as is" % (what, s, q2)
+            if raw_text(q2).count("+") != raw_text(s).count("+"):
+                return "safely_quote_qsl: %s %r -> %r changes the number of raw '+' (a space in a query; %%2B is a plus sign)" % (what, s, q2)
+            for c in raw_text(q2):
+                if c != "\x00" and c not in UNRESERVED and c not in "/+":
+                    return "safely_quote_qsl: %s %r -> %r leaves %r raw" % (what, s, q2, c)
+            if _fn("safely_quote_qsl")([(q2, q2)]) != [(q2, q2)]:
+                return "safely_quote_qsl not idempotent on %s %r" % (what, s)
         for fn, delims in DELIMS.items():
             f = _fn(fn)
             r = f(s)
